@@ -15,7 +15,8 @@ import CalVerif.Lemmas.Cfb
       sectors (any `ndif` with `109 + ndif * (perFat - 1) ≥ nfat`), nor the order of the directory
       entries or the unused entries among them, nor the mini-sector allocation, nor the padding byte.
 
-    Main result: `cfb_roundtrip`. -/
+    Main result: `cfb_roundtrip`. (Remark: the model of `Cfb::new` ignores its `len` argument, a capacity hint in
+    the code; `Lemmas/Cfb.lean` records this as `new_len_independent`, true by `rfl`.) -/
 namespace Cfb
 
 /-! ## following a chain -/
@@ -131,17 +132,71 @@ theorem cfb_roundtrip (streams : List Stream) (L : Layout) (h : Valid streams L)
   rw [hget]
   rfl
 
-/-- the regular-sector case (streams of at least 4096 bytes) -/
-theorem cfb_roundtrip_regular (streams : List Stream) (L : Layout) (h : Valid streams L)
-    (_hall : ∀ st ∈ streams, 4096 ≤ st.data.length) (st : Stream) (hst : st ∈ streams) :
-    readStream (layoutCfb streams L) st.name = .ok st.data :=
-  cfb_roundtrip streams L h st hst
+/-- a name lookup reaches the directory entry of that stream whatever the directory order, the unused
+    entries and the root entry: `get_stream` continues with the entry's start sector and size -/
+theorem get_stream_entry (streams : List Stream) (L : Layout) (h : Valid streams L) (c : CfbSt) (rd : Bytes)
+    (hg : Good streams L c rd) (s0 : Nat) (st : Stream) (hst : streams[s0]? = some st) :
+    getStream c st.name rd = getStreamAt c (streamDir streams L s0) rd :=
+  getStream_entry streams L (valid_unpack streams L h) c rd hg s0 st hst
 
-/-- the mini-stream case (streams shorter than 4096 bytes, stored in 64-byte mini sectors) -/
-theorem cfb_roundtrip_mini (streams : List Stream) (L : Layout) (h : Valid streams L)
-    (st : Stream) (hst : st ∈ streams) (_hmini : st.data.length < 4096) :
-    readStream (layoutCfb streams L) st.name = .ok st.data :=
-  cfb_roundtrip streams L h st hst
+/-- the mini-stream case: a stream shorter than 4096 bytes is read THROUGH THE MINI STREAM. Its directory entry
+    starts at the mini chain `L.mini.ids s0`; `get_stream` follows that chain in the mini FAT the state holds, over
+    the mini stream the state holds (the root entry's chain, loaded by `Cfb::new`), reads nothing from the file,
+    and the result is the concatenation of those 64-byte mini sectors truncated to the size -/
+theorem cfb_roundtrip_mini (streams : List Stream) (L : Layout) (h : Valid streams L) (c : CfbSt) (rd : Bytes)
+    (hg : Good streams L c rd) (s0 : Nat) (st : Stream) (hst : streams[s0]? = some st)
+    (hmini : st.data.length < 4096) :
+    (streamDir streams L s0).start = chainStart L.mini s0 ∧ (streamDir streams L s0).len = st.data.length ∧
+    c.mini.getChain (chainStart L.mini s0) c.miniFats rd st.data.length = .ok (st.data, c.mini, rd) ∧
+    getStream c st.name rd = .ok (st.data, c, rd) ∧
+    st.data = (((L.mini.ids s0).map (sec c.mini.data 64)).flatten).take st.data.length := by
+  have hv := valid_unpack streams L h
+  have hm : isMini st = true := by simpa [isMini] using hmini
+  have hsub := mini_subread streams L hv s0 st hst hm rd
+  have hsec := mini_stream_sectors streams L hv s0 st hst hm
+  refine ⟨by simp [streamDir, hst, hm], by simp [streamDir, hst], ?_, ?_, ?_⟩
+  · rw [hg.mini, hg.miniFats]; exact hsub
+  · obtain ⟨d, s, f, m, mf⟩ := c
+    obtain ⟨g1, g2, g3, g4, g5, g6⟩ := hg
+    simp only at g1 g2 g3 g4 g5 g6
+    subst g3 g4
+    rw [getStream_entry streams L hv _ rd ⟨g1, g2, rfl, rfl, g5, g6⟩ s0 st hst]
+    unfold getStreamAt
+    simp only [streamDir, hst, hm, hmini, if_true]
+    rw [hsub]
+  · rw [hg.mini]; exact hsec
+
+/-- the regular case: a stream of at least 4096 bytes is read THROUGH THE FAT. Its directory entry starts at the
+    chain `L.main.ids (3 + s0)`; `get_stream` follows it in the FAT over the sectors of the file, and the result is
+    the concatenation of those sectors truncated to the size -/
+theorem cfb_roundtrip_regular (streams : List Stream) (L : Layout) (h : Valid streams L) (c : CfbSt) (rd : Bytes)
+    (hg : Good streams L c rd) (s0 : Nat) (st : Stream) (hst : streams[s0]? = some st)
+    (hreg : 4096 ≤ st.data.length) :
+    (streamDir streams L s0).start = chainStart L.main (3 + s0) ∧ (streamDir streams L s0).len = st.data.length ∧
+    (∃ s' rd', c.sectors.getChain (chainStart L.main (3 + s0)) c.fats rd st.data.length = .ok (st.data, s', rd') ∧
+      getStream c st.name rd = .ok (st.data, { c with sectors := s' }, rd')) ∧
+    st.data = (((L.main.ids (3 + s0)).map (sec (mainBody streams L) L.ss)).flatten).take st.data.length := by
+  have hv := valid_unpack streams L h
+  have hm : isMini st = false := by simp [isMini]; omega
+  have hnl : ¬ st.data.length < 4096 := by omega
+  obtain ⟨s', rd', he, _, _⟩ := main_subread streams L hv s0 st hst hm c.sectors rd hg.inv hg.size
+  refine ⟨by simp [streamDir, hst, hm], by simp [streamDir, hst], ⟨s', rd', ?_, ?_⟩,
+    regular_stream_sectors streams L hv s0 st hst hm⟩
+  · rw [hg.fats]; exact he
+  · rw [getStream_entry streams L hv c rd hg s0 st hst]
+    unfold getStreamAt
+    simp only [streamDir, hst, hm, hnl, if_false, Bool.false_eq_true]
+    rw [hg.fats, he]
+
+/-- the reader as a lookup function (interface used by C18's `project` and by `Xls`): on a generated container it
+    returns exactly the streams — every stream by its name, nothing for any other name but the two pseudo
+    entries (`Root Entry` and the empty name of unused entries) -/
+theorem lookup_streams (streams : List Stream) (L : Layout) (h : Valid streams L) (c : CfbSt) (rd : Bytes)
+    (hg : Good streams L c rd) :
+    (∀ st ∈ streams, lookupOf c rd st.name = some st.data) ∧
+    (∀ name, name ≠ rootName → name ≠ [] → (∀ st ∈ streams, st.name ≠ name) → lookupOf c rd name = none) :=
+  ⟨fun st hst => lookupOf_stream streams L (valid_unpack streams L h) c rd hg st hst,
+   fun name h1 h2 h3 => lookupOf_absent streams L (valid_unpack streams L h) c rd hg name h1 h2 h3⟩
 
 /-- `containers_equal`: two containers holding the same streams read the same, whatever their layouts -/
 theorem containers_equal (streams : List Stream) (L₁ L₂ : Layout) (h₁ : Valid streams L₁) (h₂ : Valid streams L₂)
@@ -177,18 +232,11 @@ theorem new_terminates (file : Bytes) (len : Nat) : Cfb.new file len ≠ .outOfF
 theorem new_no_panic (file : Bytes) (len : Nat) (m : String) : Cfb.new file len ≠ .panic m :=
   (new_clean file len).1 m
 
-/-- the former partial statement (kept for the files that cite it): there is no panic left at all -/
-theorem new_no_panic_partial (file : Bytes) (len : Nat) (m : String) (h : Cfb.new file len = .panic m) :
-    m = "to_u32: assert_eq!(s.len() % 4, 0)" := absurd h (new_no_panic file len m)
-
-/-- the `len` argument of `Cfb::new` is a capacity hint only: the result does not depend on it -/
-theorem new_len_independent (file : Bytes) (len₁ len₂ : Nat) : Cfb.new file len₁ = Cfb.new file len₂ := rfl
-
-/-- `X_alloc` for `Cfb::new` on ARBITRARY bytes: the allocation table (4 bytes per entry) and the mini stream are
+/-- `X_alloc` for `Cfb::new` on ARBITRARY bytes: the allocation tables (4 bytes per entry) and the mini stream are
     no larger than what has been read of the file, which together with the unread rest is at most the file -/
 theorem new_alloc_bound (file : Bytes) (len : Nat) (c : CfbSt) (rd : Bytes) (h : Cfb.new file len = .ok (c, rd)) :
     c.fats.length * 4 ≤ c.sectors.data.length ∧ c.mini.data.length ≤ c.sectors.data.length ∧
-    c.sectors.data.length + rd.length ≤ file.length :=
+    c.miniFats.length * 4 ≤ c.sectors.data.length ∧ c.sectors.data.length + rd.length ≤ file.length :=
   (new_clean file len).2.2 c rd h
 
 /-- `get_stream` on ARBITRARY reader state never panics and always terminates -/
@@ -204,8 +252,23 @@ theorem getStream_alloc_bound (c : CfbSt) (name : List Char) (rd : Bytes) (x : B
 
 theorem bytes_after_new (file : Bytes) (len : Nat) (c : CfbSt) (rd : Bytes) (h : Cfb.new file len = .ok (c, rd)) :
     c.bytes rd ≤ 2 * file.length := by
-  obtain ⟨_, h2, h3⟩ := new_alloc_bound file len c rd h
+  obtain ⟨_, h2, _, h3⟩ := new_alloc_bound file len c rd h
   simp only [CfbSt.bytes]; omega
+
+/-! ### time: sector reads (`Sectors::get` calls), counted by cost functions that mirror the loops of the model
+    call by call (`newCost`, `getStreamCost` in `Model/Cfb.lean`). The `≠ outOfFuel` theorems above only say that
+    each loop stays within its own budget; the bound below is GLOBAL: all loops of `Cfb::new` and of one
+    `get_stream` together perform a number of sector reads linear in the file length, on ARBITRARY bytes. (Not
+    counted: the 128-byte directory entries parsed, at most `|file| / 128`, and the linear name search.) -/
+
+theorem new_cost_linear (file : Bytes) : newCost file ≤ 2 * file.length + 110 := newCost_linear file
+
+theorem read_cost_linear (file : Bytes) (len : Nat) (c : CfbSt) (rd : Bytes) (h : Cfb.new file len = .ok (c, rd))
+    (name : List Char) : newCost file + getStreamCost c name rd ≤ 3 * file.length + 110 := by
+  have h1 := newCost_linear file
+  have h2 := getStreamCost_le c name rd
+  obtain ⟨a1, _, a3, a4⟩ := new_alloc_bound file len c rd h
+  omega
 
 /-- on an acyclic (valid) chain of distinct sectors the bounds are never the reason for an error: a fuel of
     the number of sectors of the chain suffices (statement of `chain_follow` with `rem = ids.length`) -/
